@@ -187,6 +187,35 @@ pub fn through_history(files: &Files, seed: u64) -> (Json, Json, Json) {
     (stage1, out, Json::Arr(log))
 }
 
+/// The same texts read from DISK: every file is written to a scratch directory and added with `add_file` by one parser,
+/// and added with `add_content` under the same path by another; both must report the same (trees, diagnostics, ids).
+/// `add_file` is the other way contents enter the library: it must not change a byte of what it reads.
+pub fn file_same(files: &Files, seed: u64) -> bool {
+    use std::path::PathBuf;
+    let dir = std::env::temp_dir().join(format!("aidl-verif-files-{}-{:x}", std::process::id(), seed));
+    if std::fs::create_dir_all(&dir).is_err() {
+        return true;
+    }
+    let mut a: Parser<PathBuf> = Parser::new();
+    let mut b: Parser<PathBuf> = Parser::new();
+    let mut ok = true;
+    for (k, (_, text)) in files.iter().enumerate() {
+        let path = dir.join(format!("f{}.aidl", k));
+        if std::fs::write(&path, text.as_bytes()).is_err() {
+            continue;
+        }
+        if a.add_file(&path).is_err() {
+            ok = false;
+        }
+        b.add_content(path.clone(), text);
+    }
+    if ok {
+        ok = crate::store_ops::path_results(&a.validate()) == crate::store_ops::path_results(&b.validate());
+    }
+    let _ = std::fs::remove_dir_all(&dir);
+    ok
+}
+
 /// Every file parsed ALONE, each by a parser that never held anything else, each on a thread of its own (no
 /// thread-local left-overs): does the syntax stage of the multi-file parser (`stage1`) hold exactly these?
 pub fn solo_same(files: &Files, stage1: &Json) -> bool {
@@ -271,8 +300,10 @@ pub fn impl_validate_after(files: &Files, prev: Option<&Files>) -> Json {
             (true, Json::Null)
         };
         let solo = if sd % 3 == 1 && files.len() > 1 { solo_same(files, &stage1) } else { true };
+        let fsame = if sd % 4 == 2 || files.iter().any(|f| f.1.len() > 4000) { file_same(files, sd) } else { true };
         Json::obj(vec![
             ("outcome", Json::s("ok")),
+            ("file_same", Json::Bool(fsame)),
             ("solo_same", Json::Bool(solo)),
             ("stage1", stage1),
             ("keys", Json::Arr(keys.into_iter().map(|(k, v)| Json::Arr(vec![Json::s(k), Json::s(v)])).collect())),
@@ -454,6 +485,8 @@ pub fn parse_case(files: &Files, extra: Vec<(&'static str, Json)>) -> Vec<(&'sta
         } else {
             (true, Json::Null)
         };
+        // one case in four: the same texts read from disk
+        let fsame = if sd % 4 == 2 || files.iter().any(|f| f.1.len() > 4000) { file_same(files, sd) } else { true };
         Json::obj(vec![
             ("outcome", Json::s("ok")),
             ("stage1", stage1),
@@ -461,6 +494,7 @@ pub fn parse_case(files: &Files, extra: Vec<(&'static str, Json)>) -> Vec<(&'sta
             ("tags_ok", Json::Bool(tags_ok)),
             ("history_same", Json::Bool(history_same)),
             ("history_ops", history_ops),
+            ("file_same", Json::Bool(fsame)),
         ])
     }));
     let imp = match r {
@@ -1880,6 +1914,17 @@ pub fn run(suite: &str, thorough: bool, seed: u64, shard: usize, nshards: usize,
                 if crlf {
                     // a CRLF file: normalise every line ending
                     text = text.replace("\r\n", "\n").replace('\r', "\n").replace('\n', "\r\n");
+                }
+                if r.chance(1, 10) {
+                    // a long file: an ASCII comment in front, sized so that the first multi-byte character of the document
+                    // starts at byte 4095 (whoever reads files in blocks must not cut characters in two)
+                    if let Some(i) = text.char_indices().find(|(_, c)| c.len_utf8() > 1).map(|(i, _)| i) {
+                        if i + 4 < 4095 {
+                            let h = 4095 - i;
+                            let header = format!("//{}\n", "x".repeat(h - 3));
+                            text = format!("{}{}", header, text);
+                        }
+                    }
                 }
                 let extra = vec![("docs", Json::obj(vec![("expected", Json::Arr(expected)), ("situations", Json::Arr(situations)), ("crlf", Json::Bool(crlf))]))];
                 em.case(sd, parse_case(&vec![("f".to_owned(), text)], extra));
